@@ -574,7 +574,7 @@ theorem reify_not_ident (v : Val) (g : String) : reify v ≠ some (.ident g) := 
   | sclos names body env r this => simp only [reify]; split <;> simp
   | _ => simp [reify]
 
-theorem rule_cases (hcfg : FreeCfg cfg) {sc : Scope} {X a' : AST} (hr : rule S M T cfg sc X = .ok a') :
+theorem rule_cases (hreg : cfg.regroup = false) {sc : Scope} {X a' : AST} (hr : rule S M T cfg sc X = .ok a') :
     a' = X ∨ (∃ v, reify v = some a') ∨ (∃ b t e, X = .ifE (.const (.bool b)) t e ∧ a' = if b then t else e) := by
   have fin : ∀ {E : R Val}, foldR S cfg X E = .ok a' → a' = X ∨ (∃ v, reify v = some a') ∨
       (∃ b t e, X = .ifE (.const (.bool b)) t e ∧ a' = if b then t else e) := by
@@ -590,7 +590,7 @@ theorem rule_cases (hcfg : FreeCfg cfg) {sc : Scope} {X a' : AST} (hr : rule S M
     · exact .inr (.inr ⟨false, t, e, rfl, (Except.ok.inj hr).symm⟩)
     · exact .inl (Except.ok.inj hr).symm
   | binop op x1 y1 =>
-    simp only [rule, hcfg.regroup, Bool.false_and] at hr
+    simp only [rule, hreg, Bool.false_and] at hr
     split at hr
     · split at hr
       · exact fin hr
@@ -623,8 +623,14 @@ theorem rule_cases (hcfg : FreeCfg cfg) {sc : Scope} {X a' : AST} (hr : rule S M
           · exact .inl (Except.ok.inj hr).symm
       · exact .inl (Except.ok.inj hr).symm
     | clos names body outer r this =>
-      simp only [rule, isConst, hcfg.foldClosures, Bool.false_and] at hr
-      exact .inl (Except.ok.inj hr).symm
+      simp only [rule] at hr
+      split at hr
+      · split at hr
+        · exact .inl (Except.ok.inj hr).symm
+        · split at hr
+          · exact fin hr
+          · exact .inl (Except.ok.inj hr).symm
+      · exact .inl (Except.ok.inj hr).symm
     | _ => exact .inl (Except.ok.inj hr).symm
   | method recv name args =>
     simp only [rule] at hr
@@ -751,14 +757,14 @@ theorem guardName_ok {x : String} (h : guardName S x = .ok ()) : S x = none := b
 theorem lit_not_ident {k : AST} (h : lit k = true) (g : String) : k ≠ .ident g := by
   intro hk; subst hk; simp [lit] at h
 
-theorem ruleOrNot_ident (hcfg : FreeCfg cfg) {fold : Bool} {sc : Scope} {X : AST} {g : String}
+theorem ruleOrNot_ident (hreg : cfg.regroup = false) {fold : Bool} {sc : Scope} {X : AST} {g : String}
     (h : (if fold = true then rule S M T cfg sc X else pure X) = .ok (.ident g))
     (hX : X ≠ .ident g) (hif : ∀ c t e, X ≠ .ifE c t e) : False := by
   cases fold with
   | false => exact hX (by simpa [pure, Except.pure] using h)
   | true =>
     simp only [if_true] at h
-    rcases rule_cases hcfg h with h1 | ⟨v, hv⟩ | ⟨b, t, e, h1, _⟩
+    rcases rule_cases hreg h with h1 | ⟨v, hv⟩ | ⟨b, t, e, h1, _⟩
     · exact hX h1.symm
     · exact reify_not_ident v g hv
     · exact hif _ _ _ h1
@@ -795,9 +801,9 @@ theorem closureFree_idBound : ∀ (a : AST) (L : List String), closureFree S L a
 
 /-- an identifier that the optimizer leaves (or makes) the whole expression is a run-time variable
 of the scope -/
-theorem opt_ident (hcfg : FreeCfg cfg) : ∀ (f : AST) (fold : Bool) (sc : Scope) (L : List String) (g : String),
+theorem opt_ident (hcfg : cfg.regroup = false) : ∀ (f : AST) (fold : Bool) (sc : Scope) (L : List String) (g : String),
     opt S M T cfg fold sc f = .ok (.ident g) → idBound L f = true →
-    (∀ x, x ∈ L → sc.find x ≠ none) → (∀ x k, sc.find x = some (some k) → lit k = true) →
+    (∀ x, x ∈ L → sc.find x ≠ none) → (∀ x k, sc.find x = some (some k) → isConst S cfg k = true) →
     sc.find g = some none
   | .ident x, fold, sc, L, g, h, hcf, inL, cl => by
     simp only [opt] at h
@@ -813,7 +819,9 @@ theorem opt_ident (hcfg : FreeCfg cfg) : ∀ (f : AST) (fold : Bool) (sc : Scope
       | some k =>
         simp only [hf] at h
         have : k = .ident g := by simpa [pure, Except.pure] using h
-        exact absurd this (lit_not_ident (cl x k hf) g)
+        have hk := cl x k hf
+        rw [this] at hk
+        simp [isConst] at hk
   | .letE x v i, fold, sc, L, g, h, hcf, inL, cl => by
     simp only [opt] at h
     cases fold with
@@ -824,7 +832,7 @@ theorem opt_ident (hcfg : FreeCfg cfg) : ∀ (f : AST) (fold : Bool) (sc : Scope
       simp only [idBound] at hcf
       by_cases hc : isConst S cfg v' = true
       · simp only [hc, if_true] at h
-        have hlit := isConst_lit hcfg.foldClosures v' hc
+        have hlit := hc
         have := opt_ident hcfg i true ((x, some v') :: sc) (x :: L) g h hcf
           (fun y hy => by
             rw [Scope.find_cons]
@@ -1319,8 +1327,8 @@ theorem step_expr (hcfg : FreeCfg cfg) {n : Nat} (ih : SimB S M T cfg n) :
             | ident name => exact absurd ⟨name, rfl⟩ hid
             | _ => exact hcf.1
           subst hg
-          have := opt_ident hcfg f fold sc L g h1 (closureFree_idBound f L hcff) he.inL
-            (fun x k hk => (he.cst x k hk).1)
+          have := opt_ident hcfg.regroup f fold sc L g h1 (closureFree_idBound f L hcff) he.inL
+            (fun x k hk => lit_isConst k (he.cst x k hk).1)
           have hS := (he.rt g this).1
           simp [hS]
       rw [call_dyn_form n f args env hdyn]
